@@ -180,7 +180,7 @@ func statsOf(ts []rc.Tok, equs []rc.Item, st *exprStats) {
 func judgeExprCase(c exprCase, rec *hx.Rec) string {
 	cfg := c.Cfg.RC()
 	items := append([]rc.Item(nil), c.Equs...)
-	feat := rc.Features{Indent: true}
+	feat := rc.Features{Indent: true, OwnLine: c.Kind == "assert"}
 	discard := func(why string) string {
 		if rec != nil {
 			rec.Discard(why)
@@ -339,7 +339,13 @@ func buildExprProgram(c exprCase, v *int64) []rc.Item {
 			e = adj(0) // force a failing assertion in a third of the cases
 		}
 		items = append(items, rc.Item{Kind: rc.KAssert, Expr: e})
-		items = append(items, dat(3))
+		d3 := dat(3)
+		d3.Labels = []string{"here"} // the ;assert line may then stand between this label and its instruction
+		items = append(items, d3)
+		if c.N%2 == 0 {
+			// with a FOR block in the program every line also passes through the FOR expander
+			items = append(items, rc.Item{Kind: rc.KFor, Expr: rc.Toks(rc.N(1)), Body: []rc.Item{dat(4)}})
+		}
 	}
 	return items
 }
